@@ -2,9 +2,9 @@
 Lean: Model/*.lean, Props/C20*.lean.  Tie: hand models + correspondence (H): harness/*_drv.c
 linked with the scratch build of /repo's current tree vs the compiled Lean driver."""
 from vlib import common
-from checks.parts import dnf
+from checks.parts import dnf, table, btree, priq, bitv
 
-PARTS = [dnf]
+PARTS = [dnf, table, btree, priq, bitv]
 
 def run(ctx):
     common.run_parts(ctx, PARTS)
